@@ -92,8 +92,8 @@ def run(rep):
     for gname in G:
         B = mir.bodies[gname]
         for bb, t in B.calls():
-            if cname(t) == 'std::vec::Vec::<T, A>::push' and 'bindings' in str(canon(B, op_place(t['args'][0]))):
-                elem_tys.add(t['self_ty'])
+            if cname(t) == 'std::vec::Vec::<T, A>::push' and (t['self_ty'] or '').split('<')[0].endswith(REC_SHORT):
+                elem_tys.add(t['self_ty'])          # a push of the collected-binding record (by its type, wherever the list lives)
     for name, B in sorted(mir.bodies.items()):
         if name in helper_parents and name not in X and all(cn in X or cn in helper_parents for cn, cb in mir.bodies.items() if cb.kind != 'Closure' and any(cname(t_) == name for _, t_ in cb.calls())):
             continue        # a helper called only from the group-data function (and its helpers): judged inlined there
@@ -269,6 +269,14 @@ def run(rep):
         for b, st in oks:
             r = canon(B, op_place(st['rv']['ops'][0])) if op_place(st['rv']['ops'][0]) else None
             is_map = r is not None and B.locals[r[0]].startswith('std::collections::BTreeMap<u32')
+            if r is not None and not is_map:
+                # the ordered map handed out as a list of records in key order: `map.into_iter().map(|(k, v)| Record { .. }).collect()` - nothing
+                # between the map and the collect re-orders, filters or truncates; the checks below then judge the map it was made from
+                conv = ordered_records_of(mir, B, r[0])
+                if conv is not None:
+                    CARRIER.update(conv)
+                    r = (conv['map_local'], '')
+                    is_map = True
             rep.check(is_map and r[1] == '', 'C11.R3.ok-is-ordered-map', f'ok-map:{gname}', B.where(b),
                       f'Ok carries {r} of type {B.locals[r[0]][:60] if r else "?"}; expected the ordered group map itself', ok_detail='Ok(groups) with groups: BTreeMap<u32, _>')
             dens = None
@@ -385,6 +393,53 @@ def run(rep):
     check_one_module(rep, 'C11.one-module')
     from common import include
     include(rep, 'c04', ('C04.R1-fields.same-list', 'C04.R2-entries.same-list', 'C04.R2.entry-binding', 'C04.R3', 'C04.R4.names', 'C04.R4.set-index', 'C04.groups-ordered-map', 'C04.R7'), 'emitted-as-collected')
+
+
+CARRIER = {}     # filled by run(): how the checked groups are handed out ({'kind': 'records', 'group_field': .., 'bindings_field': ..} for a list of records)
+
+
+def ordered_records_of(mir, B, local):
+    """`local` (returned in Ok) is a Vec of records collected from the ordered group map in key order: its backward slice consists of
+    BTreeMap::into_iter / iter on a BTreeMap<u32, _> local, one `map` whose closure builds one record aggregate from the (key, value) pair, and
+    `collect` - no other adapter.  Returns the map local and which record field holds the key / the value, or None"""
+    if not B.locals[local].startswith('std::vec::Vec<'):
+        return None
+    sl, calls, stmts = B.backward_slice([local], through_calls=True)
+    names = [cname(c) for _, c in calls]
+    allowed = ('into_iter', 'iter', 'map', 'collect', 'new', 'default', 'entry', 'or_insert', 'or_default', 'or_insert_with', 'push', 'from_iter')
+    src = [c for _, c in calls if ('BTreeMap' in cname(c) or 'btree_map' in cname(c)) and method(cname(c)) in ('into_iter', 'iter')]
+    maps = [c for _, c in calls if method(cname(c)) == 'map' and 'Iterator' in cname(c)]
+    if len(src) != 1 or len(maps) != 1 or not any(method(n) == 'collect' for n in names):
+        return None
+    adapters = [n for n in names if 'iter::' in n and method(n) not in ('map', 'collect', 'into_iter', 'next', 'from_iter')]
+    if adapters:
+        return None
+    mp = op_place(src[0]['args'][0])
+    mroot = canon(B, mp) if mp else None
+    if mroot is None or not B.locals[mroot[0]].replace('&', '').replace('mut ', '').startswith('std::collections::BTreeMap<u32'):
+        return None
+    cl, _ = closure_of(B, op_local(maps[0]['args'][1])) if len(maps[0]['args']) > 1 and op_local(maps[0]['args'][1]) is not None else (None, None)
+    CB = mir.bodies.get(cl) if cl else None
+    if CB is None:
+        return None
+    aggs = [st for blk in CB.blocks for st in blk['stmts'] if st['rv']['rk'] == 'aggregate' and st['lhs']['l'] == 0]
+    if len(aggs) != 1 or any(blk['term']['k'] in ('switch',) for blk in CB.blocks):
+        return None
+    a = aggs[0]['rv']
+    key_f = val_f = None
+    for fname, o in zip(a.get('fields', []), a['ops']):
+        pl = op_place(o)
+        if not pl:
+            continue
+        rr = canon(CB, pl)
+        # the closure's argument is the (key, value) pair: local 2
+        if rr[0] == 2 and rr[1].replace('&', '').replace('*', '') in ('.0',):
+            key_f = fname
+        if rr[0] == 2 and rr[1].replace('&', '').replace('*', '') in ('.1',):
+            val_f = fname
+    if key_f is None or val_f is None:
+        return None
+    return {'kind': 'records', 'record': a['agg'], 'group_field': key_f, 'bindings_field': val_f, 'map_local': mroot[0]}
 
 
 def other_edges_only_fail(B, g, bb):
